@@ -1,6 +1,7 @@
 /-
-  C10 / C18 — the frames of a transactional post are withheld together, in order, and an aborted post leaves
-  nothing behind on its link.
+  C10 / C18 — the frames of a transactional post are withheld together, in order, whether its continuation
+  frames leave the delivery-tag and the state out or repeat them, and an aborted post leaves nothing behind on
+  its link.
 -/
 import Amqp.TxnRoute
 
@@ -8,35 +9,41 @@ namespace Amqp.TxnRoute
 
 theorem source_route_shape : routeShape = true := by decide
 
-/-- a continuation frame of a post under transaction `id`: no delivery-tag, the state left out or repeated -/
-def Continues (h id : Nat) (f : TFrame) : Prop :=
-  f.handle = h ∧ f.tag = false ∧ (f.txn = none ∨ f.txn = some id)
+/-- a continuation frame of the post with delivery-tag `tg` under transaction `id` on link `h`: the
+    delivery-tag left out or repeated, the state left out or repeated -/
+def Continues (h id tg : Nat) (f : TFrame) : Prop :=
+  f.handle = h ∧ (f.tag = none ∨ f.tag = some tg) ∧ (f.txn = none ∨ f.txn = some id)
 
-theorem decide_continuation (t : Table) (h id : Nat) (f : TFrame) (ht : t h = some id) (hc : Continues h id f) :
-    decide? t f = some id := by
+theorem decide_continuation (t : Table) (h id tg : Nat) (f : TFrame) (ht : t h = some (id, some tg))
+    (hc : Continues h id tg f) : decide? t f = some id := by
   obtain ⟨h1, h2, h3⟩ := hc
-  rcases h3 with h3 | h3 <;> simp [decide?, h3, h1, ht, h2]
+  rcases h3 with h3 | h3
+  · rcases h2 with h2 | h2 <;> simp [decide?, h3, h1, ht, h2]
+  · simp [decide?, h3]
 
-/-- **continuation_withheld.** While a post under `id` is under way on link `h`, a continuation frame is
-    withheld under `id`, and the link stays in the middle of the post exactly if the frame says `more` and
-    does not abort. -/
-theorem continuation_withheld (t : Table) (h id : Nat) (f : TFrame) (ht : t h = some id) (hc : Continues h id f) :
+/-- **continuation_withheld.** While a post under `id` is under way on link `h`, a continuation frame —
+    whichever of tag and state it repeats — is withheld under `id`, and the link stays in the middle of that
+    post exactly if the frame says `more` and does not abort. -/
+theorem continuation_withheld (t : Table) (h id tg : Nat) (f : TFrame) (ht : t h = some (id, some tg))
+    (hc : Continues h id tg f) :
     (route t f).2 = .withheld id ∧
-    (route t f).1 h = (if f.more = true ∧ f.aborted = false then some id else none) := by
-  have hd := decide_continuation t h id f ht hc
-  obtain ⟨h1, _, _⟩ := hc
+    (route t f).1 h = (if f.more = true ∧ f.aborted = false then some (id, some tg) else none) := by
+  have hd := decide_continuation t h id tg f ht hc
+  obtain ⟨h1, h2, _⟩ := hc
   constructor
   · simp [route, hd]
-  · cases hm : f.more <;> cases ha : f.aborted <;> simp [route, hd, source_route_shape, Table.set, h1, hm, ha]
+  · rcases h2 with h2 | h2 <;> cases hm : f.more <;> cases ha : f.aborted <;>
+      simp [route, hd, source_route_shape, Table.set, h1, hm, ha, h2, ht]
 
-/-- **first_frame_withheld.** A transfer that names a transaction is withheld under it. -/
-theorem first_frame_withheld (t : Table) (id : Nat) (f : TFrame) (hf : f.txn = some id) :
+/-- **first_frame_withheld.** A transfer that names a transaction is withheld under it; its delivery-tag is
+    kept with the entry. -/
+theorem first_frame_withheld (t : Table) (id tg : Nat) (f : TFrame) (hf : f.txn = some id) (hg : f.tag = some tg) :
     (route t f).2 = .withheld id ∧
-    (route t f).1 f.handle = (if f.more = true ∧ f.aborted = false then some id else none) := by
+    (route t f).1 f.handle = (if f.more = true ∧ f.aborted = false then some (id, some tg) else none) := by
   have hd : decide? t f = some id := by simp [decide?, hf]
   constructor
   · simp [route, hd]
-  · cases hm : f.more <;> cases ha : f.aborted <;> simp [route, hd, source_route_shape, Table.set, hm, ha]
+  · cases hm : f.more <;> cases ha : f.aborted <;> simp [route, hd, source_route_shape, Table.set, hm, ha, hg]
 
 /-- **abort_ends_the_post (C10).** A withheld transfer that aborts its delivery leaves the link with no post
     under way, whatever its `more` flag says. -/
@@ -47,8 +54,13 @@ theorem abort_ends_the_post (t : Table) (f : TFrame) (id : Nat) (hd : decide? t 
 /-- with the condition the code had (`more` alone) an abort frame that says `more` leaves the post under way:
     the next plain delivery's continuation frame is taken for the transaction's -/
 example :
-    (let t : Table := Table.set (fun _ => none) 0 (some 7)     -- what `more` alone leaves behind
-     decide? t ⟨0, none, false, false, false, 2⟩) = some 7 := by decide
+    (let t : Table := Table.set (fun _ => none) 0 (some (7, some 1))     -- what `more` alone leaves behind
+     decide? t ⟨0, none, none, false, false, 2⟩) = some 7 := by decide
+
+/-- and with the test the code had for a continuation (no delivery-tag at all) a continuation frame that
+    repeats the tag and leaves the state out went to the link on its own -/
+example : (route (Table.set (fun _ => none) 0 (some (7, some 1))) ⟨0, none, some 1, false, false, 2⟩).2 = .withheld 7 ∧
+    (if (some 1 : Option Nat) = none then some 7 else (none : Option Nat)) = none := by decide
 
 /-- **other_links_untouched.** A transfer touches no entry but its own link's. -/
 theorem other_links_untouched (t : Table) (f : TFrame) (h : Nat) (hne : f.handle ≠ h) : (route t f).1 h = t h := by
@@ -63,16 +75,9 @@ theorem plain_delivery_direct (t : Table) (f : TFrame) (ht : t f.handle = none) 
     route t f = (t, .direct) := by
   simp [route, decide?, hf, ht]
 
-/-- a tagged transfer without a state is direct even while a post is under way (the first frame of a new
-    delivery), and leaves the table as it is -/
-theorem tagged_plain_direct (t : Table) (f : TFrame) (hf : f.txn = none) (hg : f.tag = true) :
-    route t f = (t, .direct) := by
-  cases h : t f.handle <;> simp [route, decide?, hf, hg, h]
-
 /-- **after_abort_next_is_plain (C10).** After an aborted transactional delivery on link `h` — the abort frame
-    with or without `more` — a plain delivery in any number of frames (first frame tagged, continuation frames
-    without tag or state), frames of other links in between, goes to the link frame by frame: none of it is
-    withheld. -/
+    with or without `more` — a plain delivery in any number of frames (tags repeated or not), frames of other
+    links in between, goes to the link frame by frame: none of it is withheld. -/
 theorem after_abort_next_is_plain (h : Nat) : ∀ (fs : List TFrame) (s : St),
     s.table h = none →
     (∀ f ∈ fs, f.handle = h → f.txn = none) →
@@ -133,24 +138,25 @@ theorem step_route (s : St) (f : TFrame) : (step s f).2 = (route s.table f).2 :=
   | mk t r => cases r <;> rfl
 
 /-- **post_withheld_whole (C10, C18).** From the first frame of a post under `id` on link `h` up to (not
-    including) its last frame, with frames of other links in between in any number: every frame of the post is
-    withheld under `id` — none reaches the link before the discharge — and the link is still in the middle of
-    the post (so that the last frame, by `continuation_withheld`, is withheld too and ends it). -/
-theorem post_withheld_whole (h id : Nat) : ∀ (fs : List TFrame) (s : St),
-    s.table h = some id →
-    (∀ f ∈ fs, f.handle = h → Continues h id f ∧ f.more = true ∧ f.aborted = false) →
-    (run s fs).1.table h = some id ∧ ∀ p ∈ fs.zip (run s fs).2, p.1.handle = h → p.2 = .withheld id
+    including) its last frame, with frames of other links in between in any number, the continuation frames
+    repeating or omitting delivery-tag and state as they like: every frame of the post is withheld under `id` —
+    none reaches the link before the discharge — and the link is still in the middle of the post (so that the
+    last frame, by `continuation_withheld`, is withheld too and ends it). -/
+theorem post_withheld_whole (h id tg : Nat) : ∀ (fs : List TFrame) (s : St),
+    s.table h = some (id, some tg) →
+    (∀ f ∈ fs, f.handle = h → Continues h id tg f ∧ f.more = true ∧ f.aborted = false) →
+    (run s fs).1.table h = some (id, some tg) ∧ ∀ p ∈ fs.zip (run s fs).2, p.1.handle = h → p.2 = .withheld id
   | [], _, ht, _ => by simp [run, ht]
   | f :: fs, s, ht, hall => by
     have hrun : run s (f :: fs) = ((run (step s f).1 fs).1, (step s f).2 :: (run (step s f).1 fs).2) := by
       simp [run]
-    have ht' : (step s f).1.table h = some id := by
+    have ht' : (step s f).1.table h = some (id, some tg) := by
       rw [step_table]
       by_cases hh : f.handle = h
       · obtain ⟨hc, hm, ha⟩ := hall f (by simp) hh
-        rw [(continuation_withheld s.table h id f ht hc).2]; simp [hm, ha]
+        rw [(continuation_withheld s.table h id tg f ht hc).2]; simp [hm, ha]
       · rw [other_links_untouched s.table f h hh]; exact ht
-    obtain ⟨r1, r2⟩ := post_withheld_whole h id fs (step s f).1 ht' (fun g hg => hall g (by simp [hg]))
+    obtain ⟨r1, r2⟩ := post_withheld_whole h id tg fs (step s f).1 ht' (fun g hg => hall g (by simp [hg]))
     rw [hrun]
     refine ⟨r1, ?_⟩
     intro p hp hph
@@ -158,12 +164,13 @@ theorem post_withheld_whole (h id : Nat) : ∀ (fs : List TFrame) (s : St),
     rcases hp with rfl | hp
     · obtain ⟨hc, _, _⟩ := hall f (by simp) hph
       show (step s f).2 = _
-      rw [step_route]; exact (continuation_withheld s.table h id f ht hc).1
+      rw [step_route]; exact (continuation_withheld s.table h id tg f ht hc).1
     · exact r2 p hp hph
 
-/-! ### non-vacuity: a three-frame post whose last frame aborts with `more`, then a plain two-frame delivery -/
-example : (run St.init [⟨0, some 7, true, true, false, 1⟩, ⟨0, none, false, true, false, 2⟩,
-    ⟨0, none, false, true, true, 3⟩, ⟨0, none, true, true, false, 4⟩, ⟨0, none, false, false, false, 5⟩]).2 =
+/-! ### non-vacuity: a three-frame post (tag repeated on the second frame, state on the first only) whose last
+    frame aborts with `more`, then a plain two-frame delivery -/
+example : (run St.init [⟨0, some 7, some 1, true, false, 1⟩, ⟨0, none, some 1, true, false, 2⟩,
+    ⟨0, none, none, true, true, 3⟩, ⟨0, none, some 2, true, false, 4⟩, ⟨0, none, some 2, false, false, 5⟩]).2 =
     [.withheld 7, .withheld 7, .withheld 7, .direct, .direct] := by decide
 
 end Amqp.TxnRoute
